@@ -304,7 +304,7 @@ pub trait Datamodel {
                                 // error.execution in the internal event queue and use the empty string as
                                 // the value of the <content> element.
                                 error!("content expr '{}' is invalid ({})", expr, msg);
-                                self.internal_error_execution();
+                                // execute already added "error.execution"
                                 None
                             }
                             Ok(value) => Some(value),
@@ -348,7 +348,7 @@ pub trait Datamodel {
                                 // Processor must place the error 'error.execution' on the internal event
                                 // queue and must ignore the name and value.
                                 error!("expr of param {} is invalid ({})", param, msg);
-                                self.internal_error_execution();
+                                // execute already added "error.execution"
                             }
                             Ok(value) => {
                                 values.push(ParamPair::new_moved(
@@ -479,6 +479,8 @@ impl Datamodel for NullDatamodel {
     }
 
     fn execute(&mut self, _script: &Data) -> Result<DataArc, String> {
+        // The null datamodel can't evaluate anything: every script fails.
+        self.internal_error_execution();
         Err("unimplemented".to_string())
     }
 
